@@ -20,23 +20,30 @@ Open Scope N_scope.
 Record lst := mkL {
   l_task : task;
   l_handle : list bool;      (* protocol i still holds the handle it was given *)
-  l_tbl : list Names.proto   (* the protocols the set was built from: main name 2i, fallback 2i+1 *)
+  l_tbl : list Names.proto;  (* the protocols the set was built from: main name 2i, fallback 2i+1 *)
+  l_pend : nat               (* substream negotiations that the remote never answers: each holds a permit
+                                (a strong sender) for as long as the connection lives *)
 }.
 
 Inductive lop :=
-| LOpen (i : nat) (answer : N)     (* protocol i opens a substream; remote: 0 accepts, else it fails *)
-| LRemoteOpen (nm : N) (k : N)     (* the remote opens a substream proposing name nm; k = 0 negotiates *)
+| LOpen (i : nat) (answer : N)     (* protocol i opens a substream; remote: 0 accepts, 4 never answers (the
+                                      negotiation stays pending), else it fails *)
+| LRemoteOpen (nm : N) (k : N)     (* the remote opens a substream proposing name nm; k = 0 negotiates,
+                                      4 it goes silent after the header (pending), else it fails *)
 | LForce (i : nat)
 | LDrop (i : nat)                  (* protocol i drops its handle *)
 | LDie (i : nat)                   (* the receiver of protocol i is dropped *)
 | LMgrDie
 | LRemoteClose (arm : N)           (* observed: 2 the yamux stream yields an error, 3 it ends *)
-| LRace (arm : N).                 (* every handle dropped while an inbound substream is waiting:
-                                      observed 1 permit refused, 5 `None` command *)
+| LRace (nm : N) (arm : N).        (* every handle dropped while an inbound substream (name nm) is waiting:
+                                      observed 1 permit refused, 5 `None` command; with a negotiation
+                                      pending there is a permit left and the substream is served *)
 
 Definition running (s : lst) : bool := match gone (l_task s) with None => true | Some _ => false end.
 Definition held (s : lst) (i : nat) : bool := nth i (l_handle s) false.
 Definition any_held (h : list bool) : bool := existsb (fun b => b) h.
+(* is a strong sender of the command channel left? *)
+Definition any_strong (h : list bool) (pend : nat) : bool := any_held h || negb (pend =? 0)%nat.
 Definition nprot (s : lst) : nat := length (alive (l_task s)).
 
 (* names: 2i = main name of protocol i, 2i+1 = its fallback name (if it has one) *)
@@ -59,48 +66,61 @@ Definition rc_of (s : lst) (o : lop) : N :=
       if negb (i <? nprot s)%nat then 2 else if held s i && running s then 0 else 1
   | LDrop i | LDie i => if (i <? nprot s)%nat then 0 else 2
   | LMgrDie => 0
-  | LRemoteOpen _ _ | LRemoteClose _ | LRace _ => if running s then 0 else 2
+  | LRemoteOpen _ _ | LRemoteClose _ | LRace _ _ => if running s then 0 else 2
   end.
 
 (* the handles after the operation *)
 Definition handles_after (s : lst) (o : lop) : list bool :=
   match o with
   | LDrop i => if (i <? nprot s)%nat then set_nth i false (l_handle s) else l_handle s
-  | LRace _ => if running s then map (fun _ => false) (l_handle s) else l_handle s
+  | LRace _ _ => if running s then map (fun _ => false) (l_handle s) else l_handle s
   | _ => l_handle s
   end.
+
+Definition neg_result (tbl : list Names.proto) (nm : N) : neg_ev :=
+  match negotiated tbl nm with Some i => NegOk i false | None => NegFailAnon end.
 
 (* the events the loop handles because of the operation, in order *)
 Definition events_of (s : lst) (o : lop) : list cev :=
   if negb (rc_of s o =? 0) then [] else
   match o with
-  | LOpen i a => [ECmd COpen; ENeg (if a =? 0 then NegOk i true else NegFail i)]
+  | LOpen i a =>
+      ECmd COpen :: (if a =? 4 then [] else [ENeg (if a =? 0 then NegOk i true else NegFail i)])
   | LRemoteOpen nm k =>
-      [EYamux (YSub true);
-       ENeg (if k =? 0 then match negotiated (l_tbl s) nm with Some i => NegOk i false | None => NegFailAnon end
-             else NegFailAnon)]
+      EYamux (YSub true) ::
+      (if k =? 4 then [] else [ENeg (if k =? 0 then neg_result (l_tbl s) nm else NegFailAnon)])
   | LForce _ => [ECmd CForce]
   | LDrop i =>
       (* the last strong sender is gone: the command stream ends *)
-      if running s && negb (any_held (set_nth i false (l_handle s))) then [ECmd CNone] else []
+      if running s && negb (any_strong (set_nth i false (l_handle s)) (l_pend s)) then [ECmd CNone] else []
   | LDie i => [EDie i]
   | LMgrDie => [EMgrDie]
   | LRemoteClose arm => [EYamux (if arm =? 2 then YErr else YEof)]
-  | LRace arm => [if arm =? 1 then EYamux (YSub false) else ECmd CNone]
+  | LRace nm arm =>
+      if (l_pend s =? 0)%nat then [if arm =? 1 then EYamux (YSub false) else ECmd CNone]
+      else [EYamux (YSub true); ENeg (neg_result (l_tbl s) nm)]
+  end.
+
+Definition pend_after (s : lst) (o : lop) : nat :=
+  if negb (rc_of s o =? 0) then l_pend s else
+  match o with
+  | LOpen _ a => if a =? 4 then S (l_pend s) else l_pend s
+  | LRemoteOpen _ k => if k =? 4 then S (l_pend s) else l_pend s
+  | _ => l_pend s
   end.
 
 (* which exit arms the real loop may be seen to take for an operation whose outcome depends on the
    schedule (both branches of the select! are ready) *)
-Definition arm_allowed (o : lop) : bool :=
+Definition arm_allowed (s : lst) (o : lop) : bool :=
   match o with
   | LRemoteClose arm => (arm =? 2) || (arm =? 3)
-  | LRace arm => (arm =? 1) || (arm =? 5)
+  | LRace _ arm => if (l_pend s =? 0)%nat then (arm =? 1) || (arm =? 5) else arm =? 0
   | _ => true
   end.
 
 Definition lstep (s : lst) (o : lop) : lst * list note :=
   let '(t1, ns) := crun (l_task s) (events_of s o) in
-  (mkL t1 (handles_after s o) (l_tbl s), ns).
+  (mkL t1 (handles_after s o) (l_tbl s) (pend_after s o), ns).
 
 Fixpoint lrun (s : lst) (ops : list lop) : lst * list note :=
   match ops with
@@ -111,8 +131,8 @@ Fixpoint lrun (s : lst) (ops : list lop) : lst * list note :=
 (* accept: the protocols that still run are told and receive their handles; then the loop starts *)
 Definition linit (al : list bool) (fbmask : N) : lst * list note :=
   match accept al true with
-  | (Some t, ns) => (mkL t al (mk_tbl (length al) fbmask), ns)
-  | (None, ns) => (mkL (mkTask al true (Some (0%nat, 0%nat))) al (mk_tbl (length al) fbmask), ns)
+  | (Some t, ns) => (mkL t al (mk_tbl (length al) fbmask) 0, ns)
+  | (None, ns) => (mkL (mkTask al true (Some (0%nat, 0%nat))) al (mk_tbl (length al) fbmask) 0, ns)
   end.
 
 (* the exit arm of an event (index of the message in gen_c07_msgs.rs + 1) *)
@@ -148,4 +168,4 @@ Definition settle_events (s : lst) : list cev :=
   if running s && negb (any_held (l_handle s)) then [ECmd CNone] else [].
 
 Definition lsettle (s : lst) : lst * list note :=
-  let '(t1, ns) := crun (l_task s) (settle_events s) in (mkL t1 (l_handle s) (l_tbl s), ns).
+  let '(t1, ns) := crun (l_task s) (settle_events s) in (mkL t1 (l_handle s) (l_tbl s) (l_pend s), ns).
